@@ -761,3 +761,48 @@ func (i *interpreter) findMethod(t types.Type, name string) *ssa.Function {
 	}
 	return nil
 }
+
+// ---------------------------------------------------------------------------
+// math/rand: arbitrary values in range
+
+func init() {
+	randIntn := func(fr *frame, a []value) value {
+		i := fr.i
+		n := a[len(a)-1]
+		if nn, ok := n.(int); ok && nn <= 0 {
+			panic(targetPanicString(i, "invalid argument to Intn"))
+		}
+		k, _ := kindOfValue(n)
+		v := i.nondetOf("rand", k)
+		i.constrain(i.binopV(token.GEQ, v, i.zeroLike(n)))
+		i.constrain(i.binopV(token.LSS, v, n))
+		return v
+	}
+	for _, name := range []string{"math/rand.Intn", "math/rand.Int63n", "math/rand.Int31n", "(*math/rand.Rand).Intn", "(*math/rand.Rand).Int63n", "(*math/rand.Rand).Int31n"} {
+		intrinsics[name] = randIntn
+	}
+	perm := func(fr *frame, a []value) value {
+		n := int(asInt64(a[len(a)-1]))
+		if n > 6 {
+			panic(unsupported("rand.Perm above 6 elements"))
+		}
+		rem := make([]int, n)
+		for k := range rem {
+			rem[k] = k
+		}
+		out := make([]value, 0, n)
+		for len(rem) > 0 {
+			k := fr.i.choose("rnd", len(rem), "rand.Perm")
+			out = append(out, rem[k])
+			rem = append(rem[:k], rem[k+1:]...)
+		}
+		return out
+	}
+	intrinsics["math/rand.Perm"] = perm
+	intrinsics["(*math/rand.Rand).Perm"] = perm
+}
+
+func (i *interpreter) zeroLike(x value) value {
+	k, _ := kindOfValue(x)
+	return concreteOfKind(k, new(big.Int))
+}
